@@ -8,6 +8,7 @@ temporal properties) is then an exhaustive check of every behaviour the real cod
 under every environment the specification allows, for that parameterisation.
 """
 import json
+import re
 import multiprocessing as mp
 import os
 import random
@@ -15,6 +16,7 @@ import time
 
 from . import tlc as tlcmod
 
+_NEED_RE = re.compile(r'<<"NEED", (\d+), (-?\d+), <<([-\d, ]*)>>>>')
 _W = {}          # per-worker: family factory + steppers
 
 
@@ -57,7 +59,7 @@ def _work(job):
             out.append((state, iv, o, d, None))
         except Exception as ex:     # noqa
             out.append((state, iv, None, None, "%s: %s" % (type(ex).__name__, ex)))
-    return spec_json, out
+    return spec_json, out, st.sig
 
 
 def _wreset(spec_json):
@@ -76,7 +78,7 @@ def _wreset(spec_json):
                 hit += 1
         if hit != len(ov):
             raise ValueError("init_override: %d of %d registers found" % (hit, len(ov)))
-    return spec_json, tuple(rs), len(st.regs)
+    return spec_json, tuple(rs), len(st.regs), st.sig
 
 
 class NoHint:
@@ -103,6 +105,8 @@ class DutGraph:
         self.errors = []
         self.nregs = 0
         self.ctxs = {}              # state id -> set of env context hints under which it was reached
+        self._nedges = 0
+        self.sig = None
 
     def intern(self, st):
         i = self.ids.get(st)
@@ -115,7 +119,7 @@ class DutGraph:
 
     @property
     def nedges(self):
-        return sum(len(x) for x in self.succ)
+        return self._nedges
 
 
 class GraphLoop:
@@ -209,8 +213,12 @@ class GraphLoop:
                 jobs.append((g.spec_json, items[k:k + step]))
         n = 0
         new_states = {}
-        for spec_json, out in pool.imap_unordered(_work, jobs):
+        for spec_json, out, sig in pool.imap_unordered(_work, jobs):
             g = by_json[spec_json]
+            if g.sig is None:
+                g.sig = sig
+            elif g.sig != sig:
+                raise tlcmod.TLCError("register ordering differs between worker processes for %r" % (g.spec,))
             for state, iv, o, d, err in out:
                 s = g.ids[state]
                 if err is not None:
@@ -220,7 +228,10 @@ class GraphLoop:
                 di = g.intern(d)
                 if len(g.states) > before:
                     new_states.setdefault(spec_json, []).append(di)
-                g.succ[s][tlcmod.tuple_key(iv)] = (o, di)
+                kk = tlcmod.tuple_key(iv)
+                if kk not in g.succ[s]:
+                    g._nedges += 1
+                g.succ[s][kk] = (o, di)
                 n += 1
         return n, new_states
 
@@ -288,11 +299,12 @@ class GraphLoop:
         gpath = os.path.join(scratch, "graph.json")
         pool = self._pool()
         try:
-            for sj, rs, nregs in pool.imap_unordered(_wreset, [g.spec_json for g in self.duts]):
+            for sj, rs, nregs, sig in pool.imap_unordered(_wreset, [g.spec_json for g in self.duts]):
                 for g in self.duts:
                     if g.spec_json == sj:
                         g.intern(tuple(rs))
                         g.nregs = nregs
+                        g.sig = sig
             res = None
             while True:
                 self.rounds += 1
@@ -309,11 +321,12 @@ class GraphLoop:
                     return res
                 needs = {}
                 nneed = 0
-                for t in tlcmod.print_lines(res.out, "NEED"):
-                    _, d, s, iv = t
+                for m in _NEED_RE.finditer(res.out):
+                    d, s = int(m.group(1)), int(m.group(2))
+                    iv = tuple(int(x) for x in m.group(3).split(",")) if m.group(3).strip() else ()
                     g = self.duts[d - 1]
-                    g.alphabet[tlcmod.tuple_key(iv)] = tuple(iv)
-                    needs.setdefault(d - 1, set()).add((s, tuple(iv)))
+                    g.alphabet[tlcmod.tuple_key(iv)] = iv
+                    needs.setdefault(d - 1, set()).add((s, iv))
                     nneed += 1
                 self.log("  round %d: TLC %.1fs, %d distinct product states, %d NEED" % (
                     self.rounds, res.wall, res.distinct, nneed))
@@ -366,6 +379,8 @@ class GraphLoop:
             made = make(g.spec)
             opts = made[3] if len(made) > 3 else {}
             st = Stepper(made[0], made[1], made[2], clocks=tuple(opts.get("clocks", ("sys",))), engine="ref")
+            if g.sig is not None and st.sig != g.sig:
+                raise AssertionError("register ordering of the reference instance differs for %r" % (g.spec,))
             cdsel = opts.get("cds_from_input")
             strip = opts.get("strip_input", lambda x: x)
             edges = [(s, k) for s in range(len(g.succ)) for k in g.succ[s]]
